@@ -246,6 +246,24 @@ def rule_SB4(rep, prog):
                     "dispatch_apply_f submits the apply to its queue through %s instead of dispatch_sync_f: as a barrier it has to wait for every running item of "
                     "the queue - including the item that issued it, which already holds one unit of the queue's width: no iteration runs and the call never "
                     "returns" % c.callee, sample={"via": c.callee, "at": c.loc})
+    # ... and the iterations run only as an item OF the queue: once the apply object is set up, every way out goes through dispatch_sync_f on the queue or
+    # (root queues) _dispatch_apply_f; the worker functions are never called directly - a direct call runs the iterations beside the queue: they hold none of
+    # its width, so they overlap a running barrier and a later barrier does not wait for them
+    direct = [c for c in fn.all_insts() if c.op == "call" and c.callee in ("_dispatch_apply_serial", "_dispatch_apply_redirect", "_dispatch_apply_invoke",
+                                                                           "_dispatch_apply_redirect_invoke")]
+    setup = [st for st in fn.all_insts() if st.op == "store" and prog.fields(st) & {"da_todo", "da_iterations"}]
+    if not setup:
+        rep.unknown(rid, "anchor vanished: dispatch_apply_f does not initialise da_todo / da_iterations")
+    for c in direct:
+        rep.violation(rid, c.loc, fn.name, "apply-runs-beside-the-queue:%s" % c.callee,
+                      "dispatch_apply_f calls %s directly instead of submitting it to the queue with dispatch_sync_f: the iterations run without being an item of "
+                      "the queue (no width reserved), so on a concurrent queue they overlap a running barrier and a barrier submitted meanwhile does not wait for "
+                      "them" % c.callee)
+    for st in setup[:1]:
+        good, bad = fn.must_pass(st, [c for c in fn.all_insts() if c.op == "call" and c.callee in ("dispatch_sync_f", "_dispatch_apply_f")])
+        rep.require(rid, good, st.loc, fn.name, "apply-not-submitted",
+                    "dispatch_apply_f can return after setting up the apply without passing dispatch_sync_f(dq, ...) or _dispatch_apply_f (%s)" % (bad,),
+                    sample={"setup": st.loc})
     fn = prog.fn("_dispatch_apply_root_queue")
     rep.saw(fn)
     lds = [l for l in fn.all_insts() if l.op == "load" and "do_targetq" in prog.fields(l)]
